@@ -2,6 +2,7 @@ import os
 import sys
 
 from ..runner import Harness, Spec
+from ..translate import go_translator
 
 _FILES = {"zz_verif_c17_payload_test.go": "c17/payload_gen.go"}
 # the -race build of the stress harness is only part of the thorough tier (the runner has no per-tier harness list)
@@ -15,6 +16,7 @@ _CARD = dict(module="processor/batchprocessor", pkg="processor/batchprocessor",
 SPEC = Spec(
     pid="C17",
     lean_modules=["OtelVerif.Props.C17"],
+    translators=[go_translator("c17config", "OtelVerif/Gen/C17Config.lean")],
     harnesses=[
         Harness(name="split", module="processor/batchprocessor", pkg="processor/batchprocessor",
                 files=dict(_FILES, **{"zz_verif_c17_split_test.go": "c17/split_test.go"}),
@@ -37,8 +39,8 @@ SPEC = Spec(
          "generated payload trees (0-4 resources x 0-4 scopes x 0-6 items, metrics 0-4 metrics x 0-6 points of all five types + "
          "empty type, empty containers at every level) through the real splitLogs/splitTraces/splitMetrics with size in "
          "0..total+1; non-trivial = the cut went through a resource (same resource identity on both sides). "
-         "proc: the real processor in a synctest bubble, 1-10 labels (arrive payload with client metadata / advance virtual "
-         "time) then Shutdown; 40% of the configs from the RAW space (0 < max < size, negative timeout, duplicate keys ...) through the "
+         "proc: the real processor in a synctest bubble, 1-10 labels (arrive payload with RAW client metadata - the model computes the "
+         "group - / advance virtual time) then Shutdown; case 0 also compares createDefaultConfig() with the regenerated literal; 40% of the configs from the RAW space (0 < max < size, negative timeout, duplicate keys ...) through the "
          "real Config.Validate(), accept/reject compared exactly with the model's validCfg, accepted ones run under all oracles; "
          "the rest from the validated space incl. send_batch_size=0, max=0, timeout=0, 0-2 metadata keys "
          "with mixed-case header names, absent/empty/single/multi values, cardinality limit 0-3; non-trivial = >= 2 metadata "
@@ -55,8 +57,10 @@ SPEC = Spec(
         "sendItems/timer and multiShardBatcher.consume, tied by exact differential on every run (payload trees, virtual "
         "timestamps, export-context metadata, refusals)",
         "pdata semantics used by the model: RemoveIf calls the closure once per element in order, MoveTo/MoveAndAppendTo, CopyTo",
-        "group-key computation (lower-casing/sorting of metadata_keys, Metadata.Get case-insensitivity, String vs StringSlice, "
-        "attribute.NewSet) is NOT modelled: Key = value lists of the configured keys as computed by the harness; exercised with "
+        "group-key computation (lower-casing/sorting of metadata_keys, NewMetadata, Metadata.Get case-insensitivity, String vs "
+        "StringSlice) IS modelled (Model/C17Key.lean: groupOf; C17_group_key_injective) and tied: the harness passes the raw "
+        "metadata_keys and the raw client metadata, the model computes the group; only attribute.NewSet's equality law (sets are "
+        "equal iff their sorted distinctly-keyed attribute lists are) is trusted; exercised with "
         "absent / empty / single / multi / REORDERED multi ([v2,v1] vs [v1,v2]) / near-colliding (v12 vs [v1,v2], v1 vs v10) values, "
         "an adversarial pool of raw byte strings ('[]', '[\"a\",\"b\"]' vs the two-valued header, commas, quotes, backslashes, brackets, "
         "non-UTF-8 bytes, 300-byte values differing in the last byte, case variants; interned byte-exactly by generator and sink), "
@@ -65,6 +69,9 @@ SPEC = Spec(
         "model says 'values of the configured keys only'; incoming contexts carry other headers, credentials and peer addresses",
         "attribute.NewSet is injective on the value lists of the configured keys (one value -> String, otherwise StringSlice); "
         "client.Metadata.Get is case-insensitive — exercised by the generator, not proved",
+        "translator translators/cmd/c17config (go/ast): straight-line checks of Config.Validate as rule data, shape of the metadata_keys "
+        "loop, createDefaultConfig with constants resolved; interpreter runRules shared with C04 (Model/C04Config.lean); "
+        "C17_validCfg_matches_source proves the hand-written validCfg equal to it",
         "testing/synctest (go1.26): virtual time, run to quiescence after every label; one producer",
     ],
     assumptions=[
@@ -78,6 +85,10 @@ SPEC = Spec(
         "multiShardBatcher.consume (lookup, limit check, shard insertion, size++) is ONE atomic label of the model (Proc.arrive): the code "
         "makes it so with mb.lock around check+insert; this atomicity is a modelling assumption, monitored by the native-goroutine "
         "stress harness cardinality-concurrent (also with -race), not proved",
+        "C17_timeout_late replaces WellTimed by a latency bound delta (firings handled within [deadline, deadline+delta], arrivals no "
+        "later than deadline+delta; no assumption on select order): items leave within timeout+delta; delta itself is not measured",
+        "header names are ASCII; one Consume call never carries two header names that collide after lower-casing (NewMetadata "
+        "iterates a Go map: the winner would be order-dependent) - not generated",
         "the shard goroutine handles an arrival before virtual time advances (goroutine scheduling and timer wake-up latency are "
         "outside the model: C17_timeout is partial)",
         "downstream accepts every batch (the property conditions on it; on an export error sendItems drops the batch)",
